@@ -238,10 +238,12 @@ def check_average(case):
         fails.append(fail("input-mutated", None, key))
     m = -(-len(x) // n)
     ex = [float(x[r * n]) for r in range(m)]
-    ey = [sum(y[r * n:(r + 1) * n]) / len(y[r * n:(r + 1) * n]) for r in range(m)]
+    rows = [y[r * n:(r + 1) * n] for r in range(m)]
+    ey = [math.fsum(row) / len(row) for row in rows]
     if [float(v) for v in rx] != ex:
         fails.append(fail("average-x", {"got": rx, "expected": ex}, key))
-    if not _close_seq(ry, ey):
+    # each row's mean, to rounding relative to the magnitude of THAT row
+    if len(ry) != m or any(abs(float(g) - e) > 1e-12 * max(abs(v) for v in row) + 1e-300 for g, e, row in zip(ry, ey, rows)):
         fails.append(fail("average-y", {"got": ry, "expected": ey}, key))
     return fails, (len(x), n, _dig(ry))
 
@@ -286,7 +288,8 @@ def check_integrals(case):
 
 
 IV_OPS = [("read-layout",), ("read-closed", True), ("read-closed", False), ("write", 0, 0, -7.5), ("write", 1, 0, 4.25),
-          ("write", 0, 1, 9.0), ("write-flat", 2, -1.0), ("extend-constant",), ("extend-linspace",), ("read-items",)]
+          ("write", 0, 1, 9.0), ("write-flat", 2, -1.0), ("extend-constant",), ("extend-linspace",), ("read-items",),
+          ("write-flat", -1, 6.5), ("write", -1, 0, 2.5), ("write", 1, -1, 3.5)]
 
 
 @kind("interval-history")
@@ -306,13 +309,13 @@ def check_interval_history(case):
     for step, op in enumerate(ops):
         op = tuple(op)
         if op[0] == "write":
-            f = op[1] * n + op[2]
-            if not (0 <= f < len(model)):
+            f = op[1] * n + op[2]             # [i, j] <-> flat i*n+j, negative = from the end (list semantics)
+            if not (-len(model) <= f < len(model)):
                 continue
             ia[op[1], op[2]] = op[3]
             model[f] = op[3]
         elif op[0] == "write-flat":
-            if not (0 <= op[1] < len(model)):
+            if not (-len(model) <= op[1] < len(model)):
                 continue
             ia[op[1]] = op[2]
             model[op[1]] = op[2]
@@ -419,9 +422,13 @@ def harnesses(tier, seed):
     def b_average(ctx):
         L = ctx.choose(list(range(1, 25 if quick else 41)), "L")
         n = ctx.choose(list(range(1, 17)), "n")
-        for pat in range(3):
+        for pat in range(5):
             x = [0.5 * i + (i % 3) * 0.125 for i in range(L)]
             y = [float((5 * i + pat * 3) % 7 - 2 * pat) for i in range(L)]
+            if pat == 3:      # one huge early sample: every later block's mean must be unaffected by it
+                y = [1e12] + [float((5 * i) % 7 + 1) for i in range(1, L)]
+            if pat == 4:
+                y = [float((5 * i) % 7 + 1) * (1e-9 if i >= L // 2 else 1e7) for i in range(L)]
             judge(ctx, check_average, {"x": x, "y": y, "n": n}, bulk=True)
 
     def b_roundtrip(ctx):
